@@ -10,7 +10,7 @@ def spechead(mod):
     m = re.search(r"\(\*(.*?)\*\)", t, re.S)
     return m.group(1).strip() if m else ""
 plan = {"C07": (["c07.py"], ["FlushProtocol", "Trace_FlushProtocol"]),
-        "C08": (["c08.py"], ["Gorilla", "SeriesIdentity"]),
+        "C08": (["c08.py"], ["Gorilla", "SeriesIdentity", "MetricsLifecycle"]),
         "C11": (["c11.py", "c11_stress.py"] + (["c11_metrics.py"] if os.path.exists(os.path.join(V, "checks", "c11_metrics.py")) else []),
                 ["Visibility"] + (["MetricsVisibility"] if os.path.exists(os.path.join(V, "spec", "MetricsVisibility.tla")) else [])),
         "C17": (["c17.py", "c17_sched.py", "c17_async.py", "c17_grammar.py"], ["QueryLifecycle", "Trace_QueryLifecycle", "Grammar", "GrammarClauses", "GrammarEval", "GrammarProm"])}
